@@ -581,6 +581,9 @@ func (w *world) nodeScenario(id int, thorough bool) {
 		// certchain vs node, while EC's head still descends from everything finalized
 		// (and has reached the bootstrap epoch: certchain addresses the bootstrap tipset by epoch)
 		descends := (s.latest < 0 || t.isAncestor(s.latest, headID)) && t.blocks[headID].epoch >= m.BootstrapEpoch-m.EC.Finality
+		if bt, err := t.GetTipsetByEpoch(s.ctx, m.BootstrapEpoch-m.EC.Finality); err != nil || bt.(*block).id != boot.(*block).id {
+			descends = false // a fork through the (final by assumption) bootstrap epoch
+		}
 		if s.ccOK && descends {
 			for q := 1 + r.Intn(3); q > 0; q-- {
 				qi := int64(inst) - int64(m.CommitteeLookback) - 1 + int64(r.Intn(int(m.CommitteeLookback)+4))
